@@ -33,6 +33,10 @@ def run(chk, tier, jobs, deadline):
             if tp in ("ux", "uxf") and ph in ("resolving", "connecting", "handshaking", "connect-variants"):
                 continue
             cells.append(("tp=%s,phase=%s" % (tp, ph), 0 if q else 1))
+    # credential files rewritten by another process while a non-blocking connect/accept loads them: every fopen()
+    # inside an API call is a choice point (free of time: the files' time stamps change at that moment)
+    for tp in ("tls", "btls", "utls"):
+        cells.append(("tp=%s,phase=creds-change,menu=0" % tp, 1 if q else 2))
     dl = deadline or (420 if q else 2700)
     tot1, cnt1 = msgfamily.run_configs(chk, "h_nb", cells, PREFIXES, jobs, dl * 0.5,
                                        counter_names={1: "api_calls_monitored_h_nb"})
